@@ -110,6 +110,7 @@ for kind, nl in (("STR", 2), ("PREFIX", 2), ("STR_NOACCENT", 4), ("PREFIX_NOACCE
 
 U(name="U.lang.search", harness="harness/lang_search.c", mode="H", loops=True, profiles=["lang_search"],
   functions=["lang_search"], loop_contracts=["lang_search"], expect_loop_obligations=2, unwind=40, dfcc_loops=True, object_bits=14,
+  exact_loops=[("bsearch (model of libc, stubs/bsearch_model.h)", 0, "<= 12 probes for 2048 entries")],
   props=["C07", "C09", "C14"], timeout=900)
 
 U(noweave_fallback=True, name="U.lang.phrase_decode", harness="harness/lang_decode.c", mode="H", defines=["UNIT_AUTO"],
